@@ -1374,6 +1374,303 @@ theorem next_pass_with_choice (c : Nat) (g : GR σ π) (bodies : List (List Stmt
     | empty => simp [GR.abs, isOpts] at hw
 
 
+
+/-! ### `Next` as a whole is `R.next` -/
+
+def eraseLog (d : Data σ π) : Data σ π := { d with jumpLog := [] }
+
+/-- the ghost log is never read: a statement does the same whatever the log holds -/
+theorem exec_eraseLog (d : Data σ π) (st : Stmt) :
+    eraseLog (exec henv mkp prog (eraseLog d) st).1 = eraseLog (exec henv mkp prog d st).1 ∧
+    (exec henv mkp prog (eraseLog d) st).2 = (exec henv mkp prog d st).2 := by
+  cases st with
+  | empty => simp [exec, eraseLog]
+  | line l =>
+    simp only [exec, eraseLog]
+    cases renderLine henv mkp d.store d.visited l d.w d.ms with
+    | mk o wm => obtain ⟨w, ms⟩ := wm; cases o <;> simp
+  | opts os =>
+    simp only [exec, eraseLog]
+    cases renderOptions henv mkp d.store d.visited os d.w d.ms with
+    | mk o wm => obtain ⟨w, ms⟩ := wm; cases o <;> simp
+  | set v op e =>
+    simp only [exec, eraseLog]
+    cases eval henv d.store d.visited e d.w with
+    | mk o w =>
+      cases o with
+      | err k => simp
+      | panic q => simp
+      | ok x => cases ha : applyAssign op (d.store.get v) x <;> simp [ha]
+  | jump e =>
+    simp only [exec, eraseLog]
+    cases eval henv d.store d.visited e d.w with
+    | mk o w =>
+      cases o with
+      | err k => simp
+      | panic q => simp
+      | ok x =>
+        cases x with
+        | num a => simp
+        | bool a => simp
+        | str t =>
+          cases hf : prog.find t with
+          | none => simp [hf]
+          | some n => by_cases hfc : (Option.map Node.tracked (prog.find d.cur)).getD false = true <;> simp [hf, hfc]
+  | ifs cs =>
+    simp only [exec, eraseLog]
+    cases firstTrue henv d.store d.visited cs d.w with
+    | mk o w =>
+      cases o with
+      | err k => simp
+      | panic q => simp
+      | ok x => cases x <;> simp
+  | call f es =>
+    simp only [exec, eraseLog]
+    cases evalArgs henv d.store d.visited es d.w with
+    | mk o w =>
+      cases o with
+      | err k => simp
+      | panic q => simp
+      | ok vs =>
+        cases hc : callFn henv d.visited f vs w with
+        | mk o2 w2 => cases o2 <;> simp [hc]
+  | cmd es =>
+    cases es with
+    | nil => simp [exec, eraseLog]
+    | cons e0 es0 =>
+      simp only [exec, eraseLog]
+      cases evalArgs henv d.store d.visited (e0 :: es0) d.w with
+      | mk o w =>
+        cases o with
+        | err k => simp
+        | panic q => simp
+        | ok vs =>
+          cases vs with
+          | nil => simp
+          | cons v args =>
+            cases v with
+            | num a => simp
+            | bool a => simp
+            | str name =>
+              by_cases hs : name = "stop"
+              · simp [hs]
+              · cases hc : henv.cmd name args w.host with
+                | mk o2 h => cases o2 <;> simp [hs, hc]
+
+theorem noLog_eq (d : Data σ π) (stack : List SQ) (w : Option (List (List Stmt))) :
+    noLog (⟨d, stack, w⟩ : R σ π) = ⟨eraseLog d, stack, w⟩ := rfl
+
+/-- … so a `micro` step does the same whatever the log holds (no command pending) -/
+theorem micro_noLog_polled (d : Data σ π) (stack : List SQ) (w : Option (List (List Stmt))) (c : Nat) (hp : d.pending = none) :
+    noLog (R.micro henv mkp prog ⟨eraseLog d, stack, w⟩ c).1 = noLog (R.micro henv mkp prog ⟨d, stack, w⟩ c).1 ∧
+    (R.micro henv mkp prog ⟨eraseLog d, stack, w⟩ c).2 = (R.micro henv mkp prog ⟨d, stack, w⟩ c).2 := by
+  have h1 : poll (μ := μ) d = (d, none) := by simp [poll, hp]
+  have h2 : poll (μ := μ) (eraseLog d) = (eraseLog d, none) := by simp [poll, hp, eraseLog]
+  simp only [R.micro, h1, h2]
+  cases w with
+  | some bodies =>
+    cases hb : bodies[c]? with
+    | none => simp [hb, noLog_eq, eraseLog]
+    | some b => by_cases hl : b.length = 0 <;> simp [hb, hl, noLog_eq, eraseLog]
+  | none =>
+    cases stack with
+    | nil => simp [noLog_eq, eraseLog]
+    | cons q rest =>
+      cases hq : q.stmts[q.ptr]? with
+      | none => simp [hq, noLog_eq, eraseLog]
+      | some st =>
+        have he := exec_eraseLog henv mkp prog d st
+        simp only [hq]
+        generalize exec henv mkp prog (eraseLog d) st = y at he ⊢
+        generalize exec henv mkp prog d st = x at he ⊢
+        obtain ⟨d1, ctl1, out1⟩ := x
+        obtain ⟨d2, ctl2, out2⟩ := y
+        simp only [Prod.mk.injEq] at he
+        obtain ⟨hd, hc, ho⟩ := he
+        subst hc; subst ho
+        simp only [noLog_eq, and_true]
+        simp only [eraseLog] at hd
+        simp [eraseLog, hd]
+
+theorem micro_noLog (r : R σ π) (c : Nat) :
+    noLog (R.micro henv mkp prog (noLog r) c).1 = noLog (R.micro henv mkp prog r c).1 ∧
+    (R.micro henv mkp prog (noLog r) c).2 = (R.micro henv mkp prog r c).2 := by
+  obtain ⟨d, stack, w⟩ := r
+  have e : noLog (⟨d, stack, w⟩ : R σ π) = ⟨eraseLog d, stack, w⟩ := rfl
+  rw [e]
+  cases hp : d.pending with
+  | none => exact micro_noLog_polled henv mkp prog d stack w c hp
+  | some o =>
+    cases o with
+    | none => simp [R.micro, poll, hp, eraseLog, noLog_eq]
+    | some f =>
+      cases f with
+      | true => simp [R.micro, poll, hp, eraseLog, noLog_eq]
+      | false =>
+        have h1 : poll (μ := μ) d = ({ d with pending := none }, none) := by simp [poll, hp]
+        have h2 : poll (μ := μ) (eraseLog d) = (eraseLog { d with pending := none }, none) := by simp [poll, hp, eraseLog]
+        have h3 : poll (μ := μ) ({ d with pending := none } : Data σ π) = ({ d with pending := none }, none) := by simp [poll]
+        have h4 : poll (μ := μ) (eraseLog { d with pending := none }) = (eraseLog { d with pending := none }, none) := by
+          simp [poll, eraseLog]
+        rw [micro_polled henv mkp prog _ _ stack w c h1 h3, micro_polled henv mkp prog _ _ stack w c h2 h4]
+        exact micro_noLog_polled henv mkp prog _ stack w c rfl
+
+/-- states that differ in the ghost log only take the same `micro` step -/
+theorem micro_congr_noLog (r1 r2 : R σ π) (c : Nat) (h : noLog r1 = noLog r2) :
+    noLog (R.micro henv mkp prog r1 c).1 = noLog (R.micro henv mkp prog r2 c).1 ∧
+    (R.micro henv mkp prog r1 c).2 = (R.micro henv mkp prog r2 c).2 := by
+  have a := micro_noLog henv mkp prog r1 c
+  have b := micro_noLog henv mkp prog r2 c
+  rw [h] at a
+  exact ⟨a.1.symm.trans b.1, a.2.symm.trans b.2⟩
+
+/-- a step without output leaves no choice pending -/
+theorem micro_none_waiting (r : R σ π) (c : Nat) (h : (R.micro henv mkp prog r c).2 = none) :
+    (R.micro henv mkp prog r c).1.waiting = none := by
+  obtain ⟨d, stack, w⟩ := r
+  unfold R.micro at h ⊢
+  cases hp : poll (μ := μ) d with
+  | mk d' o =>
+    cases o with
+    | some out => simp [hp] at h
+    | none =>
+      simp only [hp] at h ⊢
+      cases w with
+      | some bodies =>
+        cases hb : bodies[c]? with
+        | none => simp [hb] at h
+        | some b => by_cases hl : b.length = 0 <;> simp [hb, hl]
+      | none =>
+        cases stack with
+        | nil => simp at h
+        | cons q rest =>
+          cases hq : q.stmts[q.ptr]? with
+          | none => simp [hq]
+          | some st =>
+            simp only [hq] at h ⊢
+            generalize exec henv mkp prog d' st = x at h ⊢
+            obtain ⟨d1, ctl1, out1⟩ := x
+            simp only at h
+            subst h
+            simp
+
+/-- `Next(c)`: passes of the interpreted body following its tail calls, at most `f` of them (out of fuel: still calling) -/
+def nextRun (c : Nat) : Nat → GR σ π → SRes σ π μ
+  | 0, g => .tail [.int c] g
+  | f + 1, g =>
+    match nextPass henv mkp prog c g with
+    | .tail _ g' => nextRun c f g'
+    | r => r
+
+/-- agreement of a whole call with `R.next` -/
+def AgreesN (c : Nat) (r : SRes σ π μ) (m : R σ π × NextRes μ) : Prop :=
+  match m.2 with
+  | .fuel => ∃ g', r = .tail [.int c] g' ∧ noLog g'.abs = noLog m.1
+  | .out o => Agrees c r (m.1, some o)
+
+theorem noLog_waiting (r1 r2 : R σ π) (h : noLog r1 = noLog r2) : r1.waiting = r2.waiting := by
+  have := congrArg R.waiting h
+  simpa [noLog] using this
+
+theorem noLog_stack (r1 r2 : R σ π) (h : noLog r1 = noLog r2) : r1.stack = r2.stack := by
+  have := congrArg R.stack h
+  simpa [noLog] using this
+
+/-- **`Next` is `R.next`**: the interpreted `Next`, iterated along its own tail calls, returns what the model's `Next`
+returns and leaves the state it leaves (up to the ghost log), for every fuel — from any state without a pending choice -/
+theorem next_is_model (c : Nat) : ∀ (f : Nat) (g : GR σ π) (r : R σ π), noLog g.abs = noLog r → r.waiting = none →
+    AgreesN c (nextRun henv mkp prog c f g) (R.next henv mkp prog f r c) := by
+  intro f
+  induction f with
+  | zero => intro g r h _; exact ⟨g, rfl, h⟩
+  | succ f ih =>
+    intro g r h hw
+    have hwg : g.abs.waiting = none := (noLog_waiting _ _ h).trans hw
+    have ha := next_pass_is_micro henv mkp prog c g hwg
+    have hc := micro_congr_noLog henv mkp prog g.abs r c h
+    have hnw := micro_none_waiting henv mkp prog r c
+    unfold R.next
+    cases hm : R.micro henv mkp prog r c with
+    | mk r' out =>
+      cases hmg : R.micro henv mkp prog g.abs c with
+      | mk rg outg =>
+        rw [hm, hmg] at hc
+        rw [hmg] at ha
+        rw [hm] at hnw
+        obtain ⟨hs, ho⟩ := hc
+        simp only at hs ho
+        subst ho
+        cases outg with
+        | none =>
+          obtain ⟨g', hp, hg'⟩ := ha
+          simp only [nextRun, hp]
+          exact ih g' r' (hg'.trans hs) (hnw rfl)
+        | some o =>
+          simp only [AgreesN]
+          cases o with
+          | err k =>
+            obtain ⟨g', hp, hg'⟩ := ha
+            exact ⟨g', by simp [nextRun, hp], hg'.trans hs⟩
+          | panic q =>
+            obtain ⟨g', hp, hd, hst⟩ := ha
+            refine ⟨g', by simp [nextRun, hp], ?_, ?_⟩
+            · simp only at hd ⊢; rw [hd, hs]
+            · simp only at hst ⊢; rw [hst]; exact noLog_stack _ _ hs
+          | ok e =>
+            cases e with
+            | ended => obtain ⟨g', hp, hg'⟩ := ha; exact ⟨g', by simp [nextRun, hp], hg'.trans hs⟩
+            | waiting => obtain ⟨g', hp, hg'⟩ := ha; exact ⟨g', by simp [nextRun, hp], hg'.trans hs⟩
+            | line n t tags => obtain ⟨g', hp, hg'⟩ := ha; exact ⟨g', by simp [nextRun, hp], hg'.trans hs⟩
+            | options n os => obtain ⟨g', hp, hg'⟩ := ha; exact ⟨g', by simp [nextRun, hp], hg'.trans hs⟩
+
+/-- … and from a state with a pending choice: the first pass of the code is the model's first two steps -/
+theorem next_is_model_with_choice (c : Nat) (f : Nat) (g : GR σ π) (bodies : List (List Stmt))
+    (hw : g.abs.waiting = some bodies) :
+    AgreesN c (nextRun henv mkp prog c (f + 1) g) (R.next henv mkp prog (f + 2) g.abs c) := by
+  have ha := next_pass_with_choice henv mkp prog c g bodies hw
+  have hnw := micro_none_waiting henv mkp prog g.abs c
+  rw [R.next]
+  cases hm : R.micro henv mkp prog g.abs c with
+  | mk r1 out1 =>
+    rw [hm] at ha hnw
+    cases out1 with
+    | some o =>
+      simp only [AgreesN] at ha ⊢
+      cases o with
+      | err k => obtain ⟨g', hp, hg'⟩ := ha; exact ⟨g', by simp [nextRun, hp], hg'⟩
+      | panic q => obtain ⟨g', hp, hd, hst⟩ := ha; exact ⟨g', by simp [nextRun, hp], hd, hst⟩
+      | ok e =>
+        cases e with
+        | ended => obtain ⟨g', hp, hg'⟩ := ha; exact ⟨g', by simp [nextRun, hp], hg'⟩
+        | waiting => obtain ⟨g', hp, hg'⟩ := ha; exact ⟨g', by simp [nextRun, hp], hg'⟩
+        | line n t tags => obtain ⟨g', hp, hg'⟩ := ha; exact ⟨g', by simp [nextRun, hp], hg'⟩
+        | options n os => obtain ⟨g', hp, hg'⟩ := ha; exact ⟨g', by simp [nextRun, hp], hg'⟩
+    | none =>
+      simp only at ha ⊢
+      have hw1 : r1.waiting = none := hnw rfl
+      rw [R.next]
+      cases hm2 : R.micro henv mkp prog r1 c with
+      | mk r2 out2 =>
+        rw [hm2] at ha
+        have hnw2 := micro_none_waiting henv mkp prog r1 c
+        rw [hm2] at hnw2
+        cases out2 with
+        | none =>
+          obtain ⟨g', hp, hg'⟩ := ha
+          simp only [nextRun, hp]
+          exact next_is_model henv mkp prog c f g' r2 hg' (hnw2 rfl)
+        | some o =>
+          simp only [AgreesN] at ha ⊢
+          cases o with
+          | err k => obtain ⟨g', hp, hg'⟩ := ha; exact ⟨g', by simp [nextRun, hp], hg'⟩
+          | panic q => obtain ⟨g', hp, hd, hst⟩ := ha; exact ⟨g', by simp [nextRun, hp], hd, hst⟩
+          | ok e =>
+            cases e with
+            | ended => obtain ⟨g', hp, hg'⟩ := ha; exact ⟨g', by simp [nextRun, hp], hg'⟩
+            | waiting => obtain ⟨g', hp, hg'⟩ := ha; exact ⟨g', by simp [nextRun, hp], hg'⟩
+            | line n t tags => obtain ⟨g', hp, hg'⟩ := ha; exact ⟨g', by simp [nextRun, hp], hg'⟩
+            | options n os => obtain ⟨g', hp, hg'⟩ := ha; exact ⟨g', by simp [nextRun, hp], hg'⟩
+
 /-! ### non-vacuity: the interpreter evaluated on concrete states (kernel reduction, `decide`) -/
 namespace Demo
 
@@ -1438,6 +1735,9 @@ example : obs (passes 1 gDone) = ("error", ⟨"B", [(3, 3)], [("A", 1)], ["x"], 
 example : obs (passes 2 gDone) = ("again", ⟨"B", [], [("A", 1)], ["x"], ["x"], false⟩) := by decide +kernel
 example : obs (passes 3 gDone) = ("end", ⟨"B", [], [("A", 1)], ["x"], ["x"], false⟩) := by decide +kernel
 
+-- the whole call: `Next(0)` from the start runs the set statement, jumps, and presents the line of B
+example : obs (nextRun henv0 mk0 prog0 0 10 g0) = ("line B: hi", ⟨"B", [(3, 1)], [("A", 1)], ["x"], ["x"], false⟩) := by decide +kernel
+
 -- RestoreAt: unknown node = error and nothing changed; a known node rebuilds everything
 def gMid : GR Unit Unit := (stateOf (passes 3 g0)).getD g0
 example : obs (L3 henv0 mk0 prog0 src "RestoreAt" .dr [.snap ⟨[("y", .num (F64.ofInt 1))], [("B", 7)], "nowhere"⟩] gMid) =
@@ -1476,3 +1776,5 @@ end Ysgo.C01IR
 #print axioms Ysgo.C01IR.restoreAt_is_model
 #print axioms Ysgo.C01IR.next_pass_is_micro
 #print axioms Ysgo.C01IR.next_pass_with_choice
+#print axioms Ysgo.C01IR.next_is_model
+#print axioms Ysgo.C01IR.next_is_model_with_choice
